@@ -173,7 +173,7 @@ CLAIMED["C13"] = dict(engine="names", design="4 C13",
   technique="Coq proof (register/atom simulation, slice arithmetic by lia) + differential correspondence via extracted model incl. the Coq spec itself")
 CLAIMED["C14"] = dict(engine="names", design="4 C14",
   text="Coq theorems for ALL strings: person-level inverse split1(merge1 p)=p for valid names with non-empty last and no word ending in an odd number of backslashes (through the real tokeniser), the list-level law outside the known class K3 (through the real co-author splitter, using C12_exact), reduction of the four-middleware round trip to it, and the refutation witness for K3; the full parse_string/write_string stack is additionally exercised by differential correspondence and the Python oracle on every run.",
-  note="K3 open known finding (KNOWN-FINDING line); the writer/parser legs of the stack are C05/C10's subject and are tested here, not proved; stack stream reads names back from write_string output with the plain parse stack",
+  note="K3, K10, K11 open known findings (KNOWN-FINDING lines); the writer/parser legs of the stack are now PROVED by composition with C05/C10 at field, entry, library and document level (C14_stack_{field,entry,library,document}_roundtrip: parse_string(append=[Separate, SplitParts]) -> write_string(prepend=[MergeParts, MergeCo]) -> parse again gives the same structured names) under explicit hypotheses on the MERGED text (brace-balanced in the splitter's reading - derived from validity when no word has two adjacent backslashes -, not ending in a backslash, no block-start pattern); the two refutation theorems C14_stack_roundtrip_refuted (K10) and ..._refuted_K2 (K11) show the hypotheses are needed; stack stream reads names back from write_string output with the plain parse stack",
   technique="Coq proof + differential correspondence (function pair, list chain, full stack)")
 PENDING = {}
 
